@@ -32,7 +32,7 @@ func newEncoder(format string, w io.Writer, jopts json.EncodeOptions) stepper {
 	case "json":
 		return json.NewEncoder(w, jopts)
 	case "jsoni":
-		return json.NewEncoder(w, json.EncodeOptions{Line: []byte{'\n'}, Indent: []byte{'\t'}})
+		return json.NewEncoder(w, json.EncodeOptions{Line: []byte{'\n'}, Indent: []byte{' ', ' '}})
 	case "pretty":
 		return pretty.NewEncoder(w)
 	}
